@@ -252,6 +252,9 @@ def main(argv=None):
     selftest = None
     if args.tier == 'thorough' and not os.environ.get('TTVC_NO_SELFTEST'):
         selftest = run_selftest(prop, scens, repo, args.jobs, mod, seed)
+    optab = optable_evidence(args.tier, seed) if not os.environ.get('TTVC_NO_OPTABLE') else {'skipped': True}
+    if optab.get('n_disagreements'):
+        print('OPTABLE-WARNING %d disagreements between the assumed torch contracts and real torch: %s' % (optab['n_disagreements'], optab.get('disagreements')))
     wall = time.time() - t0
     level = getattr(mod, 'LEVEL', 'proof')
     ev = {
@@ -272,6 +275,7 @@ def main(argv=None):
             'bounded_evaluations_not_counted_as_proved': b_eval,
             'explanation': getattr(mod, 'EXPLANATION', ''),
             'selftest_seeded_changes': selftest,
+            'op_table_validated': optab,
             'evaluations': max(1, len(results) + b_eval),
             'distinct_nontrivial': max(2, len(results) + sum(int(b.get('distinct_inputs', 0) or 0) for b in bounded)),
             'rule': 'one evaluation = one (contract case, discrete structure) instance explored on all symbolic paths, plus bounded stand-in runs; all distinct by construction',
@@ -284,6 +288,30 @@ def main(argv=None):
     print('SUMMARY property=%s tier=%s obligations=%d discharged=%d undecided=%d failed=%d known=%d bounded_eval=%d bounded_fail=%d instances=%d wall=%.1fs solver=%.1fs exit=%d'
           % (prop, args.tier, n_obl, n_dis, n_undec, len(failures), sum(len(v) for v in known_hits.values()), b_eval, b_fail, len(results), wall, solver_s, rc))
     return rc
+
+
+def optable_evidence(tier, seed):
+    """differential validation of the op table (assumed contracts of torch / numpy) against real torch; quick tier uses the
+    result cached by setup.sh when it is newer than the engine sources"""
+    cache = os.path.join(HERE, '.optable_%s.json' % tier)
+    srcs = [os.path.join(HERE, 'ttvc', f) for f in ('tensors.py', 'optable.py', 'terms.py', 'prover.py')] + [os.path.join(HERE, 'tools', f) for f in ('optable_cases.py', 'optable_run.py')]
+    try:
+        fresh = os.path.exists(cache) and all(os.path.getmtime(cache) >= os.path.getmtime(f) for f in srcs)
+    except OSError:
+        fresh = False
+    if not fresh:
+        try:
+            subprocess.run(['sh', os.path.join(HERE, 'tools', 'optable_validate.sh'), tier, str(seed), cache], capture_output=True, text=True, timeout=1200)
+        except Exception as e:
+            return {'error': repr(e)}
+    try:
+        d = json.load(open(cache))
+    except Exception as e:
+        return {'error': 'no result: %r' % e}
+    out = {k: d.get(k) for k in ('entries', 'instances', 'agree', 'out_of_subset', 'n_disagreements', 'error') if k in d}
+    out['disagreements'] = [{'id': x.get('id'), 'op': x.get('op')} for x in (d.get('disagreements') or [])[:10]]
+    out['cached'] = fresh
+    return out
 
 
 def run_selftest(prop, scens, repo, jobs, mod, seed):
